@@ -31,7 +31,7 @@ func historicalLookup(input OmegaInput) (output OmegaOutput) {
 
 	if account, accountExists := (*input.Addition.ServiceAccountState)[*s]; accountExists && input.VM.Registers[7] == 0xffffffffffffffff {
 		a = &account
-	} else if account, accountExists := (*input.Addition.ServiceAccountState)[types.ServiceID(input.VM.Registers[7])]; accountExists {
+	} else if account, accountExists := accountByRegister(*input.Addition.ServiceAccountState, input.VM.Registers[7]); accountExists {
 		a = &account
 	}
 
